@@ -1,11 +1,13 @@
 """C04 / C05: csr.Multiplexer against specs/CsrMux*.tla."""
 import json
 
+import hashlib
 from . import common, tlc, tracecheck, hwcheck
 from .common import bits, unbits, rng
 from .hw import pmap
 
 from amaranth import Module
+from amaranth.hdl import Fragment
 from amaranth.lib import wiring
 from amaranth.lib.wiring import Out
 from amaranth_soc import csr
@@ -33,17 +35,50 @@ def access_of(reg):
     return {(1, 0): "r", (0, 1): "w", (1, 1): "rw"}[(reg["r"], reg["w"])]
 
 
-def build_map(cfg):
-    """Real MemoryMap holding mock registers at the cfg's ranges."""
+def build_map(cfg, after=None):
+    """Real MemoryMap holding mock registers at the cfg's ranges.  `after(k, mm)` is called once k registers
+    have been added (k = 0..n), e.g. to construct the multiplexer BEFORE the remaining registers exist."""
     mm = MemoryMap(addr_width=cfg["aw"], data_width=cfg["dw"], alignment=cfg.get("al", 0))
     regs = []
+    if after:
+        after(0, mm)
     for k, rc in enumerate(cfg["regs"]):
         reg = MockReg(rc["width"], access_of(rc))
         got = mm.add_resource(reg, name=(f"r{k}",), addr=rc["start"], size=rc["stop"] - rc["start"])
         if got != (rc["start"], rc["stop"]):
             raise common.MachineryError(f"layout not reproducible on MemoryMap: {rc} -> {got}")
         regs.append(reg)
+        if after:
+            after(k + 1, mm)
     return mm, regs
+
+
+def naturally_aligned(cfg):
+    for r in cfg["regs"]:
+        size = r["stop"] - r["start"]
+        if r["start"] % (1 << max(0, (size - 1).bit_length())) != 0:
+            return False
+    return True
+
+
+def early_point(n, *salt):
+    """After how many of n registers the multiplexer is constructed: all of them for every other layout,
+    otherwise somewhere earlier (csr.Multiplexer does not freeze its map: registers added between its
+    construction and its elaboration are legal and must be decoded like the others)."""
+    h = int.from_bytes(hashlib.blake2b(repr(salt).encode(), digest_size=4).digest(), "big")
+    return n if h % 2 == 0 else (h // 2) % (n + 1)
+
+
+def build_mux(cfg, overlaps):
+    """-> (mux, mm, regs); the multiplexer is constructed at early_point of the layout"""
+    box = []
+    at = early_point(len(cfg["regs"]), cfg["aw"], cfg["dw"], [(r["start"], r["stop"], r["width"]) for r in cfg["regs"]])
+
+    def after(k, mm):
+        if k == at:
+            box.append(csr.Multiplexer(mm, shadow_overlaps=overlaps))
+    mm, regs = build_map(cfg, after)
+    return box[0], mm, regs
 
 
 class Adapter:
@@ -71,8 +106,17 @@ class Adapter:
             dict(random_traces=112, length=300)
 
     def build(self, cfg):
-        mm, regs = build_map(cfg)
-        dut = csr.Multiplexer(mm, shadow_overlaps=cfg.get("overlaps"))
+        dut, mm, regs = build_mux(cfg, cfg.get("overlaps"))
+        if cfg.get("overlaps") is not None and naturally_aligned(cfg):
+            # with every register aligned to its own (power-of-two) size a large enough shadow has no aliasing at
+            # all, so EVERY sharing limit is satisfiable: a refusal here is the limit changing behaviour (C05)
+            twin, _, _ = build_mux(cfg, cfg.get("overlaps"))
+            try:
+                Fragment.get(twin, None)
+            except ValueError as e:
+                raise common.Violation("satisfiable-limit-refused",
+                                       f"shadow_overlaps={cfg['overlaps']} refused a naturally aligned layout "
+                                       f"{[(r['start'], r['stop']) for r in cfg['regs']]}: {e}")
         ins = {"addr": dut.bus.addr, "r_stb": dut.bus.r_stb, "w_stb": dut.bus.w_stb,
                "w_data": dut.bus.w_data}
         outs = {"r_data": dut.bus.r_data}
@@ -158,7 +202,9 @@ class Adapter:
         traces = pmap(hwcheck._record_job, jobs)
         obs = []
         for t in traces:
-            if "not_observable" in t:
+            if "violation" in t:
+                run.report(t["violation"][0], t["violation"][1], {"cfg": t["cfg"]})
+            elif "not_observable" in t:
                 run.not_observable({"cfg": t["cfg"], "why": t["not_observable"]})
             else:
                 obs.append(t)
@@ -250,7 +296,9 @@ def differential(run, ad, tier):
     for (cfg, steps), group in zip(jobs, pmap(_diff_job, jobs)):
         good = [t for t in group if "not_observable" not in t]
         for t in group:
-            if "not_observable" in t:
+            if "violation" in t:
+                run.report(t["violation"][0], t["violation"][1], {"cfg": t["cfg"]})
+            elif "not_observable" in t:
                 run.not_observable({"cfg": t["cfg"], "why": t["not_observable"]})
         for t in good[1:]:
             for k, (a, b) in enumerate(zip(good[0]["steps"], t["steps"])):
